@@ -454,10 +454,22 @@ class Extractor
         S = I->getSubExpr();
       else if (const FullExpr* F = dyn_cast<FullExpr>(S))
         S = F->getSubExpr();
+      else if (isAnonMember(S))
+        S = cast<MemberExpr>(S)->getBase();
       else
         break;
     }
     return S;
+  }
+
+  // access to the unnamed union/struct member that C inserts for fields of
+  // anonymous records (DECLARE_REFERENCE): folded into the outer access
+  static bool isAnonMember(const Stmt* S)
+  {
+    if (const MemberExpr* M = dyn_cast<MemberExpr>(S))
+      if (const FieldDecl* F = dyn_cast<FieldDecl>(M->getMemberDecl()))
+        return F->isAnonymousStructOrUnion();
+    return false;
   }
 
   bool tryConst(const Expr* E, llvm::APSInt& out)
@@ -537,6 +549,8 @@ class Extractor
           W = I->getSubExpr();
         else if (const FullExpr* F = dyn_cast<FullExpr>(W))
           W = F->getSubExpr();
+        else if (isAnonMember(W))
+          W = cast<MemberExpr>(W)->getBase();
         else
           break;
       }
@@ -657,7 +671,16 @@ class Extractor
           J.attribute("k", "member");
           const ValueDecl* MD = ME->getMemberDecl();
           J.attribute("fld", MD->getName());
-          J.attribute("arrow", ME->isArrow());
+          {
+            bool arrow = ME->isArrow();
+            const Expr* B = ME->getBase()->IgnoreParenImpCasts();
+            while (isAnonMember(B))
+            {
+              arrow = cast<MemberExpr>(B)->isArrow();
+              B = cast<MemberExpr>(B)->getBase()->IgnoreParenImpCasts();
+            }
+            J.attribute("arrow", arrow);
+          }
           if (const FieldDecl* FD = dyn_cast<FieldDecl>(MD))
           {
             // enclosing named record (skip anonymous structs/unions)
